@@ -82,7 +82,7 @@ func loadOrders(body []byte) *core.Verdict {
 	}
 	goods := h.Expect[len(h.Expect)-1]
 	v := &core.Verdict{OK: true, Class: "load-order-of-texts", NT: len(goods) >= 2}
-	if len(goods) < 2 {
+	if len(goods) < 1 {
 		return v
 	}
 	tmp, err := os.MkdirTemp(core.Root+"/out", "det")
@@ -93,7 +93,7 @@ func loadOrders(body []byte) *core.Verdict {
 	run := func(ids []string) string {
 		ms := yang.NewModules()
 		for _, id := range ids {
-			if err := ms.Parse(session.Texts[id], id+".yang"); err != nil {
+			if err := session.LoadText(ms, id); err != nil {
 				return "load of " + id + " refused: " + err.Error()
 			}
 		}
@@ -104,13 +104,56 @@ func loadOrders(body []byte) *core.Verdict {
 	rev := append([]string{}, sorted...)
 	sort.Sort(sort.Reverse(sort.StringSlice(rev)))
 	first := run(goods)
+	// the error list of these texts, for ErrorsTrace.tla (ordered by file, line, column as numbers; no duplicates)
+	{
+		ms := yang.NewModules()
+		for _, id := range goods {
+			session.LoadText(ms, id)
+		}
+		errs := ms.Process()
+		files := map[string]bool{}
+		var texts []string
+		for _, e := range errs {
+			texts = append(texts, e.Error())
+			if m := rePos.FindStringSubmatch(e.Error()); m != nil {
+				files[m[1]] = true
+			}
+		}
+		var fs []string
+		for f := range files {
+			fs = append(fs, f)
+		}
+		sort.Strings(fs)
+		rank := map[string]int{}
+		for i, f := range fs {
+			rank[f] = i + 1
+		}
+		ids := map[string]int{}
+		list := [][]int{}
+		for _, t := range texts {
+			if _, ok := ids[t]; !ok {
+				ids[t] = len(ids) + 1
+			}
+			if m := rePos.FindStringSubmatch(t); m != nil {
+				l, _ := strconv.Atoi(m[2])
+				cl, _ := strconv.Atoi(m[3])
+				list = append(list, []int{rank[m[1]], l, cl, ids[t]})
+			} else {
+				list = append(list, []int{0, 0, 0, ids[t]})
+			}
+		}
+		if len(list) > 0 {
+			ev, _ := json.Marshal(map[string]any{"ev": "errors", "list": list})
+			v.Events = append(v.Events, ev)
+		}
+	}
 	// repeated runs on one set give the same outcome
 	v.N++
 	{
 		ms := yang.NewModules()
 		ok := true
 		for _, id := range goods {
-			if err := ms.Parse(session.Texts[id], id+".yang"); err != nil {
+			if err := session.LoadText(ms, id); err != nil {
 				ok = false
 			}
 		}
@@ -370,13 +413,13 @@ func check(r *core.Run) {
 	}
 	core.CaseSuffix = ""
 	// the texts of the Session catalogue (incl. two revisions of one module): every load-only history
-	r.DirectionA("determ", core.TLCOpts{Module: "MCSession", Cfg: "MCSession_loads.cfg", Workers: 12, HeapGB: 16, Timeout: 0}, func(i int64, body string) bool {
+	r.DirectionAC("determ", core.TLCOpts{Module: "MCSession", Cfg: "MCSession_loads.cfg", Workers: 12, HeapGB: 16, Timeout: 0}, func(i int64, body string) bool {
 		return strings.Count(body, `"op":"process"`) == 1 && strings.Count(body, `"ok":true,"op":"load"`) >= 2
-	})
+	}, col)
 	for _, lc := range []string{"MCSession_loads2.cfg", "MCSession_loads3.cfg"} {
-		r.DirectionA("determ", core.TLCOpts{Module: "MCSession", Cfg: lc, Workers: 12, HeapGB: 16, Timeout: 0}, func(i int64, body string) bool {
-			return strings.Count(body, `"op":"process"`) == 1 && strings.Count(body, `"ok":true,"op":"load"`) >= 2
-		})
+		r.DirectionAC("determ", core.TLCOpts{Module: "MCSession", Cfg: lc, Workers: 12, HeapGB: 16, Timeout: 0}, func(i int64, body string) bool {
+			return strings.Count(body, `"op":"process"`) == 1 && strings.Count(body, `"ok":true,"op":"load"`) >= 1
+		}, col)
 	}
 	r.ValidateTrace("determ", col, core.TLCOpts{Module: "ErrorsTrace", Cfg: "ErrorsTrace.cfg", Timeout: 0})
 	if bin != "" {
